@@ -186,15 +186,18 @@ class CdsShortTimestamp(CcsdsTimeProvider):
         """
         if not isinstance(timedelta, datetime.timedelta):
             raise TypeError("can only handle timedelta for additions")
-        self._ms_of_day += timedelta.microseconds // 1000 + timedelta.seconds * 1000
-        if self._ms_of_day >= MS_PER_DAY:
-            self._ms_of_day -= MS_PER_DAY
-            self._ccsds_days += 1
-            if self._ccsds_days > pow(2, 16) - 1:
-                raise OverflowError("CCSDS days overflow")
-        self._ccsds_days += timedelta.days
-        if self._ccsds_days > pow(2, 16) - 1:
+        ms_of_day = (
+            self._ms_of_day + timedelta.microseconds // 1000 + timedelta.seconds * 1000
+        )
+        ccsds_days = self._ccsds_days + timedelta.days
+        if ms_of_day >= MS_PER_DAY:
+            ms_of_day -= MS_PER_DAY
+            ccsds_days += 1
+        if ccsds_days > pow(2, 16) - 1:
+            # Refuse before touching the timestamp so that it stays valid.
             raise OverflowError("CCSDS days overflow")
+        self._ms_of_day = ms_of_day
+        self._ccsds_days = ccsds_days
         self._setup()
         return self
 
